@@ -82,6 +82,36 @@ pub fn run(args: &Args) -> i32 {
             actors: vec![(2, Op::Compact { defer_remap: true })],
             strategy: StratSpec::ActorOrder(vec![1]),
         },
+        // sequential: btree on the merge key, delete, then partial-schema merge_insert naming deleted keys
+        "mergecol_after_delete_indexed" => HistorySpec {
+            name: "probe-mergecol-after-delete-indexed".into(), stable_row_ids: stable, v2_manifest_paths: false, frags: 3, rows_per_frag: 6,
+            pre_ops: vec![
+                Op::CreateIndex { col: "id", name: "idx".into() },
+                Op::Delete { pred: IdPred::Range(0, 2), retries: None },
+            ],
+            actors: vec![(3, Op::MergeCol { ids: vec![0, 1, 5], col: "v", salt: 99, retries: None })],
+            strategy: StratSpec::ActorOrder(vec![1]),
+        },
+        // sequential: btree on the merge key, in-place column rewrite, then a full-schema merge_insert
+        "ambiguous_merge" => HistorySpec {
+            name: "probe-ambiguous-merge".into(), stable_row_ids: stable, v2_manifest_paths: false, frags: 3, rows_per_frag: 6,
+            pre_ops: vec![
+                Op::CreateIndex { col: "id", name: "idx".into() },
+                Op::MergeCol { ids: vec![0, 1, 2, 3, 4, 5], col: "v", salt: 99, retries: None },
+            ],
+            actors: vec![(3, Op::Merge { ids: vec![0, 1, 6, 13], salt: 7, insert: false, retries: None })],
+            strategy: StratSpec::ActorOrder(vec![1]),
+        },
+        // sequential: btree on the merge key, update (rows move), then a full-schema merge_insert
+        "ambiguous_merge_update" => HistorySpec {
+            name: "probe-ambiguous-merge-update".into(), stable_row_ids: stable, v2_manifest_paths: false, frags: 3, rows_per_frag: 6,
+            pre_ops: vec![
+                Op::CreateIndex { col: "id", name: "idx".into() },
+                Op::Update { pred: IdPred::In(vec![0, 6, 8, 12]), add: 9, set_w: None, retries: None },
+            ],
+            actors: vec![(3, Op::Merge { ids: vec![2, 6, 11], salt: 7, insert: true, retries: None })],
+            strategy: StratSpec::ActorOrder(vec![1]),
+        },
         _ => {
             eprintln!("unknown probe");
             return 2;
